@@ -575,10 +575,19 @@ type dlParams struct {
 	PerT    int
 	Op      int  // 0 Send/SendWithSender, 1 Poison, 2 Stop, 3 SendLocal
 	Remote  bool // the engine has a remote (its address is not "local"); foreign targets then go to the remote instead of producing an event
+	Resub   bool // the monitor is subscribed a second time through another *PID object with the same value (still one subscription)
+	Churn   bool // while the sends are under way another thread spawns and poisons an unrelated actor (registry writers racing the failed lookups)
 }
 
 func (p dlParams) String() string {
-	return fmt.Sprintf("tgt%dmsg%dsnd%vsubs%dT%dx%dop%drem%v", p.Target, p.Msg, p.Sender, p.Subs, p.Threads, p.PerT, p.Op, p.Remote)
+	s := fmt.Sprintf("tgt%dmsg%dsnd%vsubs%dT%dx%dop%drem%v", p.Target, p.Msg, p.Sender, p.Subs, p.Threads, p.PerT, p.Op, p.Remote)
+	if p.Churn {
+		s += "churn"
+	}
+	if p.Resub {
+		s += "resub"
+	}
+	return s
 }
 
 type dlPayload struct{ N int }
@@ -614,6 +623,10 @@ func engDeadLetter(variants []dlParams) vsched.Instance {
 			e.Subscribe(k.MonPID)
 		} else {
 			k = NewKit()
+		}
+		if p.Resub {
+			k.E.Subscribe(actor.NewPID(k.MonPID.Address, k.MonPID.ID))
+			vsched.Quiesce()
 		}
 		var gone *actor.PID
 		switch p.Subs {
@@ -696,6 +709,12 @@ func engDeadLetter(variants []dlParams) vsched.Instance {
 				}
 			})
 		}
+		if p.Churn {
+			vsched.Go("churn", func() {
+				cp := k.E.Spawn(k.Producer("Z", nil), "churn", actor.WithID("1"))
+				k.E.Poison(cp)
+			})
+		}
 		vsched.Quiesce()
 		// the event stream and its subscriptions must have survived: one more undeliverable send
 		k.E.Send(actor.NewPID(addr, "probe/1"), 424242)
@@ -719,6 +738,9 @@ func engDeadLetter(variants []dlParams) vsched.Instance {
 		want := []string{fmt.Sprintf("DeadLetter(%s/probe/1,m424242,)", addr)}
 		if p.Subs == 3 {
 			want = append(want, fmt.Sprintf("ActorStopped(%s/gone/1)", addr))
+		}
+		if p.Churn {
+			want = append(want, fmt.Sprintf("ActorInitialized(%s/churn/1)", addr), fmt.Sprintf("ActorStarted(%s/churn/1)", addr), fmt.Sprintf("ActorStopped(%s/churn/1)", addr))
 		}
 		for _, m := range msgs {
 			rm, snd := Render(m), pidStr(sender)
